@@ -1275,6 +1275,9 @@ class AllowedAlgorithms:
         _allowed = _cinfo.get(_reg)
         if _allowed is None:
             _allowed = _pinfo.get(_sup)
+        if isinstance(_allowed, str):
+            # a single registered algorithm: compare names, not substrings
+            _allowed = [_allowed]
 
         if alg not in _allowed:
             logger.error("Signing alg user: {} not among allowed: {}".format(alg, _allowed))
